@@ -67,6 +67,11 @@ Fixpoint row_lits (netio : list sig) (r : list plane) : list bexp :=
     end
   end.
 
+(* netio[k] with Python semantics: k < 0 counts from the end; IndexError = None *)
+Definition py_index {A} (l : list A) (k : Z) : option A :=
+  let i := if 0 <=? k then k else Z.of_nat (List.length l) + k in
+  if 0 <=? i then nth_error l (Z.to_nat i) else None.
+
 Definition generic_cover (netio : list sig) (planes : list (list plane)) : bexp :=
   rtl_any (map (fun r => rtl_all (row_lits netio r)) planes).
 
@@ -74,7 +79,7 @@ Definition extract_cover (netio : list sig) (rows : list (list plane)) : option 
   let toks := tokens_of_rows rows in
   match find_special cover_special_table toks with
   | Some (k, e) =>
-      match (if 0 <=? k then nth_error netio (Z.to_nat k) else None) with
+      match py_index netio k with
       | Some d => let e' := bsubst (twire_ix netio) e in
                   if has_absent e' then None else Some (d, e')
       | None => None
